@@ -21,11 +21,12 @@ import (
 
 type c17Scenario struct {
 	world   string
-	subs    []string     // subscription operations, ids "1", "2", ...
+	subs    []string // subscription operations, ids "1", "2", ...
 	vars    []map[string]interface{}
 	up      [][]upAction // upstream script per subscription
 	bound   int
 	planner string
+	conns   int // client connections, one after the other, each running the whole script (0 = 1)
 }
 
 func (sc c17Scenario) name() string {
@@ -42,52 +43,72 @@ func (sc c17Scenario) name() string {
 		b, _ := json.Marshal(sc.vars)
 		vs = " vars=" + string(b)
 	}
-	return fmt.Sprintf("subs=%s%s upstream=%s PB<=%d planner=%s", strings.Join(sc.subs, " || "), vs, strings.Join(us, ""), sc.bound, sc.planner)
+	cs := ""
+	if sc.conns > 1 {
+		cs = fmt.Sprintf(" x%d connections in sequence", sc.conns)
+	}
+	return fmt.Sprintf("subs=%s%s upstream=%s%s PB<=%d planner=%s", strings.Join(sc.subs, " || "), vs, strings.Join(us, ""), cs, sc.bound, sc.planner)
 }
 
 type c17Obs struct {
 	env             *wsEnv
-	srv             *vrt.Conn
-	handlerReturned bool
+	srvs            []*vrt.Conn // server end of each client connection
+	handlerReturned int
 }
 
 func c17Harness(h *gwHarness, sc c17Scenario) explore.Harness {
 	return func() (func(), func(*vrt.Sched) (string, string)) {
+		h.begin()
 		o := &c17Obs{}
 		run := func() {
 			h.fed.Fakes.Reset()
 			if sc.planner == "cached" {
 				h.fed.SetPlanner(newCached())
 			}
-			env := &wsEnv{fed: h.fed, scripts: sc.up, startedC: vrt.MakeChan[int](8)}
+			conns := sc.conns
+			if conns < 1 {
+				conns = 1
+			}
+			var scripts [][]upAction
+			for c := 0; c < conns; c++ {
+				scripts = append(scripts, sc.up...)
+			}
+			env := &wsEnv{fed: h.fed, scripts: scripts, startedC: vrt.MakeChan[int](8)}
 			o.env = env
 			env.install()
-			cli, srv := vrt.Pipe("client")
-			o.srv = srv
-			hdone := vrt.MakeChan[int](1)
-			vrt.GoNamed("handler", func() {
-				h.fed.GW.Handler(&hijackWriter{conn: srv}, upgradeRequest())
-				o.handlerReturned = true
-				vrt.Send(hdone, 1)
-			})
-			writeClientFrame(cli, clientMsg("connection_init", "", nil))
-			for i, q := range sc.subs {
-				pl := map[string]interface{}{"query": q}
-				if i < len(sc.vars) && sc.vars[i] != nil {
-					pl["variables"] = sc.vars[i]
+			guard := h.guard
+			for c := 0; c < conns; c++ {
+				connID := guard.open()
+				cli, srv := vrt.Pipe(fmt.Sprintf("client%d", c))
+				o.srvs = append(o.srvs, srv)
+				hdone := vrt.MakeChan[int](1)
+				vrt.GoNamed("handler", func() {
+					h.fed.GW.Handler(&hijackWriter{conn: srv}, upgradeRequest(connID))
+					o.handlerReturned++
+					vrt.Send(hdone, 1)
+				})
+				writeClientFrame(cli, clientMsg("connection_init", "", nil))
+				first := len(env.ups)
+				for i, q := range sc.subs {
+					pl := map[string]interface{}{"query": q}
+					if i < len(sc.vars) && sc.vars[i] != nil {
+						pl["variables"] = sc.vars[i]
+					}
+					writeClientFrame(cli, clientMsg("start", fmt.Sprint(i+1), pl))
+					vrt.Recv(env.startedC)
 				}
-				writeClientFrame(cli, clientMsg("start", fmt.Sprint(i+1), pl))
-				vrt.Recv(env.startedC)
+				vrt.Explore(true)
+				for _, u := range env.ups[first:] {
+					vrt.Send(u.goC, 1)
+				}
+				vrt.GoDaemon("client-writer", func() {
+					vrt.WaitIdle() // every emitted event has been processed (or is stuck for good)
+					writeClientFrame(cli, clientMsg("connection_terminate", "", nil))
+				})
+				vrt.Recv(hdone)
+				vrt.Explore(false)
+				guard.close(connID) // the request's context ends with the handler
 			}
-			vrt.Explore(true)
-			for _, u := range env.ups {
-				vrt.Send(u.goC, 1)
-			}
-			vrt.GoDaemon("client-writer", func() {
-				vrt.WaitIdle() // every emitted event has been processed (or is stuck for good)
-				writeClientFrame(cli, clientMsg("connection_terminate", "", nil))
-			})
-			vrt.Recv(hdone)
 		}
 		check := func(s *vrt.Sched) (string, string) {
 			v := c17Verdict(s, h, sc, o)
@@ -104,14 +125,31 @@ func c17Verdict(s *vrt.Sched, h *gwHarness, sc c17Scenario, o *c17Obs) string {
 	if s.RootPanic != "" {
 		return "PANIC in driver: " + s.RootPanic
 	}
-	if !o.handlerReturned {
+	conns := sc.conns
+	if conns < 1 {
+		conns = 1
+	}
+	if o.handlerReturned < conns {
 		return "DEADLOCK handler never returned; stuck=" + stuckOps(s.Stuck)
 	}
 	if s.Deadlock {
 		return "LEAK goroutines left behind: " + stuckOps(s.Stuck)
 	}
+	for c, srv := range o.srvs {
+		if v := c17ConnVerdict(h, sc, srv, c); v != "" {
+			if c > 0 {
+				return fmt.Sprintf("connection %d after an earlier one ended: %s", c+1, v)
+			}
+			return v
+		}
+	}
+	return ""
+}
+
+// c17ConnVerdict judges what the c-th client connection received.
+func c17ConnVerdict(h *gwHarness, sc c17Scenario, srv *vrt.Conn, c int) string {
 	var received []byte
-	for _, w := range o.srv.Written {
+	for _, w := range srv.Written {
 		received = append(received, w...)
 	}
 	frames, problem := parseServerStream(received)
@@ -155,7 +193,7 @@ func c17Verdict(s *vrt.Sched, h *gwHarness, sc c17Scenario, o *c17Obs) string {
 			switch act {
 			case "event", "dataerrors":
 				n++
-				data, err := gqlref.Execute(h.fed.Merged, h.fed.W.Monolith(h.fed.Merged, a.Counters{"__event": i*10 + n}), doc.Operations[0], cvars, nil)
+				data, err := gqlref.Execute(h.fed.Merged, h.fed.W.Monolith(h.fed.Merged, a.Counters{"__event": (c*len(sc.subs)+i)*10 + n}), doc.Operations[0], cvars, nil)
 				if err != nil {
 					return "HARNESS: reference failed " + err.Error()
 				}
@@ -270,6 +308,17 @@ func c17Scenarios(tier string) []c17Scenario {
 	for _, q := range c17Subs[:4] {
 		out = append(out, c17Scenario{world: "W0+subscription-roots", subs: []string{q}, up: [][]upAction{{"event", "event"}}, bound: 1, planner: "cached"})
 	}
+	// two client connections one after the other on the same gateway: what the first leaves behind
+	// (planner cache, queryers, listeners) must not reach the second
+	for _, q := range []string{c17Subs[2], c17Subs[3]} {
+		for _, pl := range []string{"plain", "cached"} {
+			b := 0
+			if tier == "thorough" {
+				b = 1
+			}
+			out = append(out, c17Scenario{world: "W0+subscription-roots", subs: []string{q}, up: [][]upAction{{"event"}}, bound: b, planner: pl, conns: 2})
+		}
+	}
 	if tier == "thorough" {
 		for _, q := range c17Subs {
 			out = append(out, c17Scenario{world: "W0+subscription-roots", subs: []string{q}, up: [][]upAction{{"event", "event"}}, bound: 2, planner: "plain"})
@@ -281,11 +330,11 @@ func c17Scenarios(tier string) []c17Scenario {
 func init() {
 	Specs["C17"] = &Spec{
 		ID: "C17",
-		Rule: "scenario = (1-2 subscriptions on one connection out of 9 subscription operations (one with a per-subscription variable for a field of another service) whose selection needs 0, 1 or 2 other services, lists, value types, aliases, __typename; upstream event history per subscription over {event, error payload, event with data and errors, complete} " +
+		Rule: "scenario = (1-2 subscriptions on one connection (also two connections in sequence on one gateway) out of 9 subscription operations (one with a per-subscription variable for a field of another service) whose selection needs 0, 1 or 2 other services, lists, value types, aliases, __typename; upstream event history per subscription over {event, error payload, event with data and errors, complete} " +
 			"of length <=3; planner plain/cached); the real subscriptionHandler / subscriptionEntry / MultiOpQueryer.Subscribe (rewritten) run over scheduler-aware pipes against a gobwas upstream and evaluating in-memory services; " +
 			"every schedule with <=1 preemption (two subscriptions: bound 0 quick, 1 thorough) is executed; the client terminates once the system is idle; oracle at the client's frame parser: per subscription id the sequence of data payloads " +
 			"== reference evaluation of the client operation on each emitted event, in emission order, exactly once, helpers absent, never under another id, upstream error payloads arrive as errors; non-trivial = >1 execution",
-		Assumptions: []string{"one upstream connection per subscription, dialled in start order", "several connections are not explored (a connection shares nothing with another but the gateway's planner)"},
+		Assumptions: []string{"one upstream connection per subscription, dialled in start order", "connections are explored one after the other, not overlapping; a downstream call made through a queryer that was created for a client connection which has ended fails (as with the default factory's request-bound context)"},
 		Budget: func(tier string) time.Duration {
 			if tier == "quick" {
 				return 70 * time.Second
@@ -320,8 +369,9 @@ func init() {
 					atoms = append(atoms, "cfg-cached-planner")
 				}
 				out = append(out, Scenario{Name: sc.name(), Atoms: atoms,
-					Opt: explore.Options{Bound: sc.bound, Cache: true, Horizon: 100000},
-					H:   c17Harness(h, sc)})
+					Opt:   explore.Options{Bound: sc.bound, Cache: true, Horizon: 100000},
+					H:     c17Harness(h, sc),
+					Fresh: func() explore.Harness { return c17Harness(h.freshCopy(), sc) }})
 			}
 			return out
 		},
